@@ -202,6 +202,72 @@ def avOrdered : Term → Bool
        (sortBy (fun e : Term × Term => hrStr e.1) (pairsOf rest)) == (pairsOf rest).reverse
      | _, _, _ => true)
 
+/-! ## array values in either printer's order; the guard under which the order does not matter -/
+
+/-- what a reader of the printed text sees, for either printer: `sorted = true` is the tree printer (assignments of an
+array value ordered by `str(key)`), `sorted = false` the DAG printer (argument order). `unfoldAV = unfoldAVw true`. -/
+def unfoldAVw (sorted : Bool) : Term → Term
+  | .node op args p =>
+    let as := args.map (unfoldAVw sorted)
+    match op, p, args, as with
+    | .arrayValue, .ty idx, _ :: rest, ds :: restS =>
+      let ents := (pairsOf rest).zip (pairsOf restS)
+      let ents := if sorted then sortBy (fun e => hrStr e.1.1) ents else ents
+      ents.foldl (fun acc e => .node .arrayStore [acc, e.2.1, e.2.2] .none) (.node .arrayValue [ds] (.ty idx))
+    | _, _, _, _ => .node op as p
+
+/-- the value of a constant node -/
+def constVal : Term → Option Val
+  | .node .boolConst [] (.b v) => some (.b v)
+  | .node .intConst [] (.i v) => some (.i v)
+  | .node .realConst [] (.q v) => some (.r v)
+  | .node .strConst [] (.s v) => some (.s v)
+  | .node .bvConst [] (.bv v w) => some (.bv w v)
+  | _ => none
+
+def pairwiseNe : List Val → Bool
+  | [] => true
+  | x :: xs => !xs.contains x && pairwiseNe xs
+
+/-- every array value of the term has a non-array index sort and its keys are pairwise different constants of that sort
+(what `FormulaManager.Array` builds: the keys of a dictionary of constants): then any order of the assignments denotes
+the same array -/
+def avGuard : Term → Bool
+  | .node op args p =>
+    (args.map avGuard).all id &&
+    (match op, p, args with
+     | .arrayValue, .ty idx, _ :: rest =>
+       (match idx with | .array _ _ => false | _ => true) &&
+       (pairsOf rest).all (fun kv => match constVal kv.1 with | some v => v.hasSort idx | none => false) &&
+       pairwiseNe ((pairsOf rest).map (fun kv => (constVal kv.1).getD (.b false)))
+     | _, _, _ => true)
+
+/-- no quantifier anywhere -/
+def noQuant : Term → Bool
+  | .node op args _ => !op.isQuantifier && (args.map noQuant).all id
+
+/-! ## hypotheses of `printDag_sound` -/
+
+/-- the names `SmtDagPrinter.printer` must not generate: the quoted names of the free symbols -/
+def dagNames (t : Term) : List String := t.fv.eraseDups.map (fun s => pyQuote s.name)
+
+/-- the symbol of a `symbol` / `function` node is one of the protected ones -/
+def dagNameOK (names : List String) : Op → Payload → Bool
+  | .symbol, .sym s | .function, .sym s => names.contains (pyQuote s.name)
+  | _, _ => true
+
+/-- `Printable` for a quantifier-free term (no binder scope), every symbol of which is among the free symbols whose quoted
+names are `names` -/
+def DagOK (names : List String) (env : SEnv) : Term → Bool
+  | .node op args p =>
+    !op.isQuantifier &&
+    (match stdTy op p (args.map tyD) with
+     | some τ => typeOfNode op p (args.map Term.typeOf) == some τ
+     | none => false) &&
+    nodeOK env [] op p args &&
+    dagNameOK names op p &&
+    (args.map (DagOK names env)).all id
+
 /-! ## hypotheses of `decls_before_use` -/
 
 def allDistinct : List String → Bool
